@@ -17,6 +17,11 @@ class Scoped:
         self._ck = ck; self._p = prefix
         self.assumptions = []; self.explanation = ''; self.trusted = []; self.extra = {}; self.analysed = {}
 
+    def __getattr__(self, k):
+        # read-only passthrough (tier, pid, seed, ...) for attributes the view does not override
+        if k.startswith('_'): raise AttributeError(k)
+        return getattr(self._ck, k)
+
     def rule(self, rid, text): self._ck.rule(self._p + rid, text)
     def ok(self, rule, instance, where=None, detail=None, nontrivial=True): self._ck.ok(self._p + rule, instance, where, detail, nontrivial)
     def reviewed(self, rule, instance, where=None, detail=None): self._ck.reviewed(self._p + rule, instance, where, detail)
